@@ -242,6 +242,9 @@ def scale_battery(jp, rec):
     for k in (200, 400, 1000, 3000, 10000):
         big += ["$[?" + "(" * k + "@" + ")" * k + "]", "$" + "[?@" * k + "]" * k, "$[?" + "!(" * k + "@" + ")" * k + "]", "$[?" + "(" * k + "@", "$" + "[?@" * k, "$[?" + "length(" * k + "@" + ")" * k + " == 1]",
                 "$[?" + "(" * k + "1" + ")" * k + "]", "$[?" + "(" * k + "@.a ==" + ")" * k + "]"]
+    # the error at the very end of the query, and characters that mean something to string formatting in the echoed token
+    big += [pre + body for pre in ("$['", "$[\"", "$[?@ == 'x", "$.a['k', 'ab", "$[?match(@, \"") for body in ("\\", "ab\\", "\\\\\\", "\\u12", "\\u", "\\ud83d", "\\ud83d\\", "")]
+    big += [tmpl.replace("X", x) for x in ("%", "%s", "%d", "%(a)s", "{}", "{0}", "%%", "100%", "%5") for tmpl in ("$[?@.a X 2 == 0]", "$.X", "$[X]", "$['a', X]", "$[?X(@)]", "$[?@ == X]", "$[?@.a == 1 X]", "$X", "X", "$.a\nX", "$[?'X' == @ x]")]
     for t in big:
         rec.wal({"compile": t[:60] + "... (%d characters)" % len(t)})
         try:
